@@ -5,7 +5,7 @@ A value of width W is a list of W cells (LSB first).  A cell is
 Anything the interpreter does not understand becomes 'T', which can only make
 a check fail, never pass.  No search and no solver: one pass over the AST."""
 from ast_ import *
-from path import if_parts, falls_through
+from path import if_parts, falls_through, for_parts, while_parts
 
 T = 'T'
 
@@ -501,3 +501,415 @@ def expect_lanes(v, spec):
 
 def describe_mismatch(bad, limit=4):
     return '; '.join('bit %d is %s, expected %s' % (i, cell_str(g) if g is not None else 'absent', cell_str(w)) for i, g, w in bad[:limit]) + (' (+%d more bits)' % (len(bad) - limit) if len(bad) > limit else '')
+
+
+# --------------------------------------------------------------------------
+# E-BITS v2: whole-function abstract execution (bit provenance + constants).
+# Control flow must be decidable from constants (loop trip counts, template arguments, sizes fixed
+# by the caller of the rule); data-dependent ifs without control transfers are if-converted;
+# `if (...) throw` guards are assumed to pass (bounds are the business of E-GUARD).  Helper
+# functions of the repository are inlined, pointers into a buffer are (base, index, displacement).
+
+class Ptr:
+    __slots__ = ('base', 'idx', 'k')
+
+    def __init__(self, base, idx, k=0):
+        self.base, self.idx, self.k = base, idx, k
+
+    def __repr__(self):
+        return 'Ptr(%s,%s,%d)' % (self.base, self.idx, self.k)
+
+
+class _Ret(Exception):
+    def __init__(self, v):
+        self.v = v
+
+
+class _Brk(Exception):
+    pass
+
+
+class _Cont(Exception):
+    pass
+
+
+class BVExec(Interp):
+    def __init__(self, unit, max_depth=6, max_iter=256):
+        super().__init__(unit, max_depth)
+        self.max_iter = max_iter
+
+    # ---- pointers
+    def ptr_of(self, n, env, depth=0):
+        """Ptr value of a pointer-typed expression, or None"""
+        n = strip(n, casts=False)
+        while n is not None and n.get('kind') in ('ImplicitCastExpr', 'CStyleCastExpr', 'CXXStaticCastExpr', 'CXXReinterpretCastExpr', 'CXXConstCastExpr', 'ParenExpr', 'CXXFunctionalCastExpr') and kids(n):
+            n = strip(kids(n)[0], casts=False)
+        if n is None:
+            return None
+        k = n.get('kind')
+        if k == 'DeclRefExpr':
+            v = env.get((n.get('referencedDecl') or {}).get('id'))
+            if isinstance(v, Ptr):
+                return v
+            if '*' in (qtype(n) or '') or '[' in (qtype(n) or ''):
+                return Ptr(canon(n), '0', 0)
+            return None
+        if k == 'MemberExpr' and ('*' in (qtype(n) or '') or '[' in (qtype(n) or '')):
+            return Ptr(canon(n), '0', 0)
+        if k == 'BinaryOperator' and n.get('opcode') in ('+', '-') and '*' in (qtype(n) or ''):
+            a, b = n['inner']
+            pa = self.ptr_of(a, env, depth)
+            other = b
+            if pa is None:
+                pa = self.ptr_of(b, env, depth)
+                other = a
+            if pa is None:
+                return None
+            c = bv_const(self.eval(other, env, depth))
+            if c is not None:
+                return Ptr(pa.base, pa.idx, pa.k + (c if n['opcode'] == '+' else -c))
+            if pa.idx == '0' and n['opcode'] == '+':
+                from guard import split_const
+                o0 = strip(other)
+                txt = canon(other)
+                rd = ref_decl(o0) if o0 is not None and o0.get('kind') == 'DeclRefExpr' else None
+                if rd is not None and ('canon', rd.get('id')) in env:
+                    txt = env[('canon', rd['id'])]     # the caller's spelling of the argument
+                ib, kk = split_const(txt)
+                return Ptr(pa.base, ib, pa.k + kk)
+            return None
+        if k == 'UnaryOperator' and n.get('opcode') == '&':
+            s0 = strip(kids(n)[0])
+            if s0.get('kind') == 'ArraySubscriptExpr':
+                pa = self.ptr_of(s0['inner'][0], env, depth)
+                c = bv_const(self.eval(s0['inner'][1], env, depth))
+                if pa is not None and c is not None:
+                    return Ptr(pa.base, pa.idx, pa.k + c)
+            return None
+        if k in ('CXXMemberCallExpr', 'CallExpr'):
+            d = callee_decl(n, self.unit)
+            fd = self._body_decl(d)
+            if fd is not None and depth < self.max_depth:
+                r = self.call(fd, call_args(n), env, depth + 1, want_ptr=True)
+                if isinstance(r, Ptr):
+                    return r
+        return None
+
+    def _body_decl(self, d):
+        if d is None:
+            return None
+        if body_of(d) is not None:
+            return d
+        mn = d.get('mangledName')
+        for f in self.unit.functions:
+            if mn and f.get('mangledName') == mn and body_of(f) is not None:
+                return f
+        return None
+
+    def mem(self, p, w, signed):
+        sym = ('mem', p.base, p.idx, p.k)
+        return BV(w, [('i', sym, b) for b in range(w)], signed)
+
+    # ---- expressions
+    def eval(self, n, env, depth=0):
+        n0 = strip(n, casts=False)
+        k = n0.get('kind')
+        if k == 'ArraySubscriptExpr':
+            pa = self.ptr_of(n0['inner'][0], env, depth)
+            c = bv_const(self.eval(n0['inner'][1], env, depth))
+            info = width_of_type(dtype(n0)) or (8, False)
+            if pa is not None and c is not None:
+                return self.mem(Ptr(pa.base, pa.idx, pa.k + c), info[0], info[1])
+        if k == 'UnaryOperator' and n0.get('opcode') == '*':
+            pa = self.ptr_of(n0['inner'][0], env, depth)
+            info = width_of_type(dtype(n0)) or (8, False)
+            if pa is not None:
+                return self.mem(pa, info[0], info[1])
+        if k == 'UnaryOperator' and n0.get('opcode') in ('++', '--') and '*' in (qtype(n0['inner'][0]) or ''):
+            rd = ref_decl(n0['inner'][0])
+            cur = env.get((rd or {}).get('id'))
+            if isinstance(cur, Ptr):
+                new = Ptr(cur.base, cur.idx, cur.k + (1 if n0['opcode'] == '++' else -1))
+                env[rd['id']] = new
+                return cur if n0.get('isPostfix') else new
+        if k == 'SubstNonTypeTemplateParmExpr' and kids(n0):
+            return self.eval(kids(n0)[0], env, depth)
+        if k == 'MemberExpr' and (not kids(n0) or is_this(kids(n0)[0])) and ('member', n0.get('name')) in env:
+            return env[('member', n0.get('name'))]
+        if k == 'CXXMemberCallExpr' and member_call_object(n0) is not None and not is_this(member_call_object(n0)):
+            vec, key = self.vec(member_call_object(n0), env)
+            if vec is not None:
+                nm = call_name(n0)
+                if nm == 'size':
+                    return const_bv(len(vec), 64, False)
+                if nm == 'empty':
+                    return const_bv(0 if vec else 1, 1, False)
+                if nm in ('back', 'front') and vec:
+                    return vec[-1 if nm == 'back' else 0]
+        if k == 'CXXOperatorCallExpr' and call_name(n0) == 'operator[]' and len(kids(n0)) == 3:
+            vec, key = self.vec(kids(n0)[1], env)
+            if vec is not None:
+                i = bv_const(self.eval(kids(n0)[2], env, depth))
+                if i is not None and 0 <= i < len(vec):
+                    return vec[i]
+        if k in ('CXXMemberCallExpr', 'CallExpr'):
+            d = callee_decl(n0, self.unit)
+            fd = self._body_decl(d)
+            obj = member_call_object(n0) if k == 'CXXMemberCallExpr' else None
+            if fd is not None and depth < self.max_depth and (obj is None or is_this(obj)):
+                r = self.call(fd, call_args(n0), env, depth + 1)
+                if isinstance(r, BV):
+                    return r
+        return super().eval(n, env, depth)
+
+    # ---- calls
+    def call(self, fd, args, env, depth=0, want_ptr=False, bound=None):
+        frame = dict((k_, v_) for k_, v_ in env.items() if isinstance(k_, tuple))
+        if bound is not None:
+            frame.update(bound)
+        else:
+            for p, a in zip(params_of(fd), args):
+                if a.get('kind') == 'CXXDefaultArgExpr':
+                    de = [c for c in kids(p) if c.get('kind')]
+                    if de:
+                        frame[p['id']] = self.cast(self.eval(de[-1], {}, depth), dtype(p))
+                    continue
+                if '*' in (qtype(p) or ''):
+                    pv = self.ptr_of(a, env, depth)
+                    if pv is not None:
+                        frame[p['id']] = pv
+                        continue
+                v = self.eval(a, env, depth)
+                frame[p['id']] = self.cast(v, dtype(p))
+                frame[('canon', p['id'])] = canon(a)
+        try:
+            self.run([body_of(fd)], frame, depth, want_ptr)
+        except _Ret as r:
+            return r.v
+        return None
+
+    # ---- statements
+    def run(self, stmts, env, depth=0, want_ptr=False):
+        for s in stmts:
+            if s is None:
+                continue
+            k = s.get('kind')
+            if not k or k == 'NullStmt':
+                continue
+            if k == 'CompoundStmt':
+                self.run(list(kids(s)), env, depth, want_ptr)
+                continue
+            if k == 'DeclStmt':
+                for vd in kids(s):
+                    if vd.get('kind') != 'VarDecl':
+                        continue
+                    init = [c for c in kids(vd) if c.get('kind') and not c['kind'].endswith('Attr')]
+                    if not init:
+                        continue
+                    if '*' in (qtype(vd) or ''):
+                        pv = self.ptr_of(init[-1], env, depth)
+                        if pv is not None:
+                            env[vd['id']] = pv
+                        continue
+                    if width_of_type(dtype(vd)):
+                        env[vd['id']] = self.cast(self.eval(init[-1], env, depth), dtype(vd))
+                continue
+            if k == 'ReturnStmt':
+                ks = [c for c in kids(s) if c.get('kind')]
+                if not ks:
+                    raise _Ret(None)
+                if want_ptr:
+                    pv = self.ptr_of(ks[0], env, depth)
+                    if pv is not None:
+                        raise _Ret(pv)
+                raise _Ret(self.eval(ks[0], env, depth))
+            if k == 'BreakStmt':
+                raise _Brk()
+            if k == 'ContinueStmt':
+                raise _Cont()
+            if k == 'IfStmt':
+                cond, then, els = if_parts(s)
+                has_els = els is not None and els.get('kind')
+                # guard clauses that only throw are assumed to pass
+                if not falls_through(then) and any(t.get('kind') == 'CXXThrowExpr' for t in walk(then)) and not any(r.get('kind') == 'ReturnStmt' for r in walk(then)):
+                    if has_els:
+                        self.run([els], env, depth, want_ptr)
+                    continue
+                c = self.truth(self.eval(cond, env, depth))
+                if c == 1:
+                    self.run([then], env, depth, want_ptr)
+                    continue
+                if c == 0:
+                    if has_els:
+                        self.run([els], env, depth, want_ptr)
+                    continue
+                # data-dependent: if-convert when neither arm transfers control
+                ctl = [x for x in walk(s) if x.get('kind') in ('ReturnStmt', 'BreakStmt', 'ContinueStmt', 'CXXThrowExpr')]
+                if ctl:
+                    raise Unsupported('control transfer under the data-dependent condition `%s` at %s' % (src_text(cond, 40), loc_str(cond)))
+                e1 = {k_: (list(v_) if isinstance(v_, list) else v_) for k_, v_ in env.items()}
+                self.run([then], e1, depth, want_ptr)
+                e2 = {k_: (list(v_) if isinstance(v_, list) else v_) for k_, v_ in env.items()}
+                if has_els:
+                    self.run([els], e2, depth, want_ptr)
+                for key in set(e1) | set(e2):
+                    a, b = e1.get(key), e2.get(key)
+                    if a is None or b is None:
+                        continue
+                    if a is b or (isinstance(a, list) and isinstance(b, list) and len(a) == len(b) and all(x is y for x, y in zip(a, b))):
+                        env[key] = a
+                    elif isinstance(a, BV) and isinstance(b, BV):
+                        w = max(a.w, b.w)
+                        env[key] = BV(w, [c_ite(c, x, y) for x, y in zip(a.b + [T] * (w - a.w), b.b + [T] * (w - b.w))], a.signed)
+                    elif isinstance(a, list) and isinstance(b, list) and len(a) == len(b):
+                        env[key] = [BV(x.w, [c_ite(c, p_, q_) for p_, q_ in zip(x.b, y.b)], x.signed) for x, y in zip(a, b)]
+                    else:
+                        raise Unsupported('cannot merge `%s` after the data-dependent condition at %s' % (key, loc_str(cond)))
+                continue
+            if k in ('ForStmt', 'WhileStmt', 'DoStmt'):
+                if k == 'ForStmt':
+                    init, cv, cond, inc, body = for_parts(s)
+                    if init is not None and init.get('kind'):
+                        self.run([init], env, depth, want_ptr)
+                elif k == 'WhileStmt':
+                    cond, body = while_parts(s)
+                    inc = None
+                else:
+                    ks = [c for c in kids(s) if c.get('kind')]
+                    body, cond, inc = ks[0], ks[1], None
+                n = 0
+                while True:
+                    if k != 'DoStmt' or n > 0:
+                        if cond is not None and cond.get('kind'):
+                            c = self.truth(self.eval(cond, env, depth))
+                            if c == 0:
+                                break
+                            if c != 1:
+                                raise Unsupported('loop condition `%s` is not constant at %s' % (src_text(cond, 40), loc_str(cond)))
+                    n += 1
+                    if n > self.max_iter:
+                        raise Unsupported('loop at %s does not end within %d turns' % (loc_str(s), self.max_iter))
+                    try:
+                        self.run([body], env, depth, want_ptr)
+                    except _Cont:
+                        pass
+                    except _Brk:
+                        break
+                    if inc is not None and inc.get('kind'):
+                        self.step(inc, env, depth)
+                continue
+            if k == 'CXXTryStmt':
+                self.run([kids(s)[0]], env, depth, want_ptr)
+                continue
+            self.step(s, env, depth)
+
+    def vec(self, n, env):
+        """the byte vector (python list of BVs) an expression denotes, keyed by its canonical text"""
+        key = ('vec', canon(n))
+        return env.get(key), key
+
+    def step(self, s, env, depth):
+        e = strip(s, casts=False)
+        k = e.get('kind')
+        if k in ('BinaryOperator', 'CompoundAssignOperator') and e.get('opcode') in ('=', '|=', '&=', '^=', '<<=', '>>=', '+=', '-=', '*='):
+            lhs = strip(e['inner'][0], casts=False)
+            if e.get('opcode') == '=':
+                if '*' in (qtype(lhs) or ''):
+                    pv = self.ptr_of(e['inner'][1], env, depth)
+                    rd = ref_decl(lhs)
+                    if pv is not None and rd is not None:
+                        env[rd['id']] = pv
+                        return
+                v = self.eval(e['inner'][1], env, depth)
+            else:
+                if '*' in (qtype(lhs) or '') and e['opcode'] in ('+=', '-='):
+                    rd = ref_decl(lhs)
+                    cur = env.get((rd or {}).get('id'))
+                    c = bv_const(self.eval(e['inner'][1], env, depth))
+                    if isinstance(cur, Ptr) and c is not None:
+                        env[rd['id']] = Ptr(cur.base, cur.idx, cur.k + (c if e['opcode'] == '+=' else -c))
+                        return
+                    raise Unsupported('pointer update at %s' % loc_str(e))
+                ct = e.get('computeResultType') or e.get('type')
+                syn = {'kind': 'BinaryOperator', 'opcode': e['opcode'][:-1], 'type': ct, 'inner': e['inner'], '_file': e.get('_file'), '_line': e.get('_line'), '_col': e.get('_col')}
+                if e['opcode'] in ('<<=', '>>='):
+                    syn['type'] = e.get('computeLHSType') or ct
+                v = self.eval(syn, env, depth)
+            self.write(lhs, self.cast(v, dtype(lhs)), env, depth)
+            return
+        if k == 'UnaryOperator' and e.get('opcode') in ('++', '--'):
+            lhs = strip(e['inner'][0], casts=False)
+            if '*' in (qtype(lhs) or ''):
+                self.eval(e, env, depth)
+                return
+            cur = self.eval(lhs, env, depth)
+            x = bv_const(cur)
+            info = width_of_type(dtype(lhs)) or (cur.w, cur.signed)
+            if x is None:
+                raise Unsupported('++/-- of a non-constant at %s' % loc_str(e))
+            self.write(lhs, const_bv((x + (1 if e['opcode'] == '++' else -1)) & ((1 << info[0]) - 1), info[0], info[1]), env, depth)
+            return
+        if k == 'CXXMemberCallExpr':
+            obj = member_call_object(e)
+            nm = call_name(e)
+            if obj is not None and not is_this(obj):
+                vec, key = self.vec(obj, env)
+                if vec is not None:
+                    if nm in ('push_back', 'emplace_back'):
+                        vec.append(self.cast(self.eval(call_args(e)[0], env, depth), 'unsigned char'))
+                        return
+                    if nm == 'pop_back':
+                        vec.pop()
+                        return
+                    if nm in ('reserve',):
+                        return
+            d = callee_decl(e, self.unit)
+            fd = self._body_decl(d)
+            if fd is not None and (obj is None or is_this(obj)) and depth < self.max_depth:
+                self.call(fd, call_args(e), env, depth + 1)
+                # member state written by the callee lives in tuple keys: copy back
+                return
+        if k in ('CallExpr', 'CXXOperatorCallExpr', 'CXXMemberCallExpr'):
+            self.eval(e, env, depth)
+            return
+        if k in ('CXXThrowExpr',):
+            raise Unsupported('throw reached at %s' % loc_str(e))
+        if k in ('ExprWithCleanups', 'ParenExpr', 'ImplicitCastExpr') and kids(e):
+            return self.step(kids(e)[0], env, depth)
+        raise Unsupported('statement %s at %s' % (k, loc_str(e)))
+
+    def write(self, lhs, v, env, depth):
+        k = lhs.get('kind')
+        if k == 'DeclRefExpr':
+            rd = ref_decl(lhs)
+            env[rd['id']] = v
+            return
+        if k == 'MemberExpr' and (not kids(lhs) or is_this(kids(lhs)[0])):
+            env[('member', lhs.get('name'))] = v
+            return
+        # element of a modelled byte vector: v.back() / v[v.size() - 1] / v[const]
+        tgt = self.vec_elem(lhs, env, depth)
+        if tgt is not None:
+            vec, i = tgt
+            vec[i] = self.cast(v, 'unsigned char')
+            return
+        raise Unsupported('assignment to `%s` at %s' % (src_text(lhs, 40), loc_str(lhs)))
+
+    def vec_elem(self, n, env, depth):
+        n = strip(n, casts=False)
+        k = n.get('kind')
+        if k == 'CXXMemberCallExpr' and call_name(n) in ('back', 'front'):
+            vec, key = self.vec(member_call_object(n), env)
+            if vec:
+                return vec, (len(vec) - 1 if call_name(n) == 'back' else 0)
+        if k == 'CXXOperatorCallExpr' and call_name(n) == 'operator[]':
+            vec, key = self.vec(kids(n)[1], env)
+            if vec is not None:
+                i = bv_const(self.eval(kids(n)[2], env, depth))
+                if i is not None and 0 <= i < len(vec):
+                    return vec, i
+        return None
+
+
+def _bvexec_eval_hook(self, n, env, depth=0):
+    return None
